@@ -103,8 +103,8 @@ def run_unit(u, tier, pid=None):
             ur.finding_results = {'error': str(e)}
     ur.seeds = []
     if tier == 'thorough' and not ur.error:
-        # stability: two more solver seeds and half the resource limit
-        extra = [['-V', 'smt.random_seed=7'] if False else ['--smt-option', 'smt.random_seed=7'], ['--smt-option', 'smt.random_seed=31', '--rlimit', '15']]
+        # stability: two more solver seeds, the second with two thirds of the resource limit
+        extra = [['--smt-option', 'smt.random_seed=7', '--rlimit', '30'], ['--smt-option', 'smt.random_seed=31', '--rlimit', '20']]
         for ex_ in extra:
             rr = V.run(out, extra=ex_)
             v2, u2 = V.classify(rr.diags, gen)
